@@ -9,13 +9,12 @@ EXTENDS RoutingBuild, TLC, Json
 
 CONSTANTS Alpha,      \* code points for text values
           MaxText,    \* maximal length of a text value
-          Shapes,     \* subset of 1..8
+          Shapes,     \* subset of 1..14
           ConvIds,    \* subset of 1..13
-          BindIds,    \* subset of 1..7
-          Scripts     \* subset of 1..3
+          Binds       \* subset of {10 * b + s : b \in 1..7, s \in 1..3}: binding b with script root s
 
-VARIABLES sh, cv, val, val2, bd, sc, ext
-vars == <<sh, cv, val, val2, bd, sc, ext>>
+VARIABLES ph, sh, cv, val, val2, bd, sc, ext
+vars == <<ph, sh, cv, val, val2, bd, sc, ext>>
 
 T(s) == s   \* readability: literal texts are written as tuples of code points
 X == <<120>>
@@ -65,8 +64,23 @@ EDIT == <<101, 100, 105, 116>>
 WEIRD == <<97, 32, 98, 37, 233>>   \* "a b%e-acute": a static segment that needs quoting
 C2 == ConvU(4)          \* second variable of shape 4: an int
 
+Dflt(c) == CASE c.k \in {"string", "path"} -> Val("str", IF c.a = 2 THEN <<97, 37>> ELSE IF c.c = 2 THEN <<97, 97>> ELSE <<97>>)
+             [] c.k = "any" -> Val("str", <<97, 32, 98>>)
+             [] c.k = "int" -> Val("int", <<55>>)
+             [] c.k = "float" -> Val("float", <<49, 46, 53>>)
+             [] OTHER -> Val("uuid", U1)
+\* shapes 9..14: one endpoint served by three rules that share the arguments x, y and carry 2, 1 and 0 defaults
+\* (/la {x, y}; /lb/<x> {y}; /lc/<int:y>/<x>), declared in each of the six orders
+LC == <<108, 99>>
+Group(c, v, dom) ==
+  <<Rule(1, <<Lit(LA)>>, FALSE, <<Named(X, v), Named(Y, Dflt(C2))>>, dom),
+    Rule(1, <<Lit(LB), Var(<<>>, X, c, <<>>)>>, FALSE, <<Named(Y, Dflt(C2))>>, dom),
+    Rule(1, <<Lit(LC), Var(<<>>, Y, C2, <<>>), Var(<<>>, X, c, <<>>)>>, FALSE, <<>>, dom)>>
+Perm(k) == CASE k = 1 -> <<1, 2, 3>> [] k = 2 -> <<1, 3, 2>> [] k = 3 -> <<2, 1, 3>> [] k = 4 -> <<2, 3, 1>>
+             [] k = 5 -> <<3, 1, 2>> [] OTHER -> <<3, 2, 1>>
+GroupY == {NoVal, Dflt(C2), Val("int", <<52, 50>>)}
+
 \* the rules of the map for a shape (dom filled in by the binding)
-Dflt(c) == CHOOSE d \in ValuesOf(c) : TRUE
 RulesFor(s, c, v0, dom) ==
   LET v == Dflt(c) IN
   CASE s = 1 -> <<Rule(1, <<Lit(LA), Var(<<>>, X, c, <<>>)>>, FALSE, <<>>, dom)>>
@@ -76,7 +90,8 @@ RulesFor(s, c, v0, dom) ==
     [] s = 5 -> <<Rule(1, <<Lit(LA)>>, TRUE, <<Named(X, v)>>, dom), Rule(1, <<Lit(LB), Var(<<>>, X, c, <<>>)>>, FALSE, <<>>, dom)>>
     [] s = 6 -> <<Rule(1, <<Lit(WEIRD), Var(<<>>, X, c, <<>>)>>, TRUE, <<Named(Q, Val("str", <<122>>))>>, dom)>>
     [] s = 7 -> <<Rule(2, <<Lit(LB)>>, FALSE, <<>>, dom), Rule(1, <<Lit(LA), Var(<<>>, Y, C2, <<>>), Var(<<>>, X, c, <<>>)>>, FALSE, <<>>, dom)>>
-    [] OTHER -> <<Rule(1, <<Lit(LB), Var(<<>>, X, c, <<>>)>>, FALSE, <<>>, dom), Rule(1, <<Lit(LA)>>, TRUE, <<Named(X, v)>>, dom)>>
+    [] s = 8 -> <<Rule(1, <<Lit(LB), Var(<<>>, X, c, <<>>)>>, FALSE, <<>>, dom), Rule(1, <<Lit(LA)>>, TRUE, <<Named(X, v)>>, dom)>>
+    [] OTHER -> [i \in 1..3 |-> Group(c, v, dom)[Perm(s - 8)[i]]]
 
 \* shapes where the variable is not the last segment cannot hold a path converter followed by a variable
 ShapeOKFor(s, c) == (s = 7 => c.k # "path")
@@ -100,53 +115,70 @@ BindU(i) ==
 MapOf == [rules |-> RulesFor(sh, ConvU(cv), val, BindU(bd).dom), host_matching |-> BindU(bd).hm, redirect_defaults |-> TRUE]
 BindOf == [server |-> BindU(bd).server, script |-> ScriptU(sc), sub |-> BindU(bd).sub, scheme |-> BindU(bd).scheme]
 \* the call: endpoint 1 with x (not given in the defaults shapes half of the time: val2 = "none"), y for shape 7, an extra for shape 3
-ValsOf == (IF sh \in {5, 8} /\ val2.ty = "none" THEN <<>> ELSE <<Named(X, val)>>)
+ValsOf == IF sh >= 9 THEN (IF val.ty = "none" THEN <<>> ELSE <<Named(X, val)>>) \o (IF val2.ty = "none" THEN <<>> ELSE <<Named(Y, val2)>>)
+          ELSE
+          (IF sh \in {5, 8} /\ val2.ty = "none" THEN <<>> ELSE <<Named(X, val)>>)
           \o (IF sh = 7 THEN <<Named(Y, val2)>> ELSE <<>>)
           \o (IF sh = 3 THEN <<Named(Q, Val("str", <<97, 32, 38, 61, 233>>)), [name |-> <<122>>, ty |-> "list", v |-> <<>>, items |-> <<<<49>>, <<43>>>>]>> ELSE <<>>)
 
-Init == /\ sh \in Shapes
+\* initial states = (shape, converter, binding): cheap; the values are chosen by Next so that the laws
+\* are evaluated by all workers
+Init == /\ ph = 0
+        /\ sh \in Shapes
         /\ cv \in ConvIds
         /\ ShapeOKFor(sh, ConvU(cv))
-        /\ val \in ValuesOf(ConvU(cv))
-        /\ val2 \in (IF sh = 7 THEN ValuesOf(C2) ELSE IF sh \in {5, 8} THEN {NoVal, Val("str", <<>>)} ELSE {NoVal})
-        /\ bd \in BindIds
-        /\ sc \in Scripts
-        /\ ext \in BOOLEAN
+        /\ \E x \in Binds : bd = x \div 10 /\ sc = x % 10
+        /\ val = NoVal /\ val2 = NoVal /\ ext = FALSE
+Next == /\ ph = 0 /\ ph' = 1
+        /\ val' \in ValuesOf(ConvU(cv)) \cup (IF sh >= 9 THEN {NoVal} ELSE {})
+        /\ val2' \in (IF sh >= 9 THEN GroupY ELSE IF sh = 7 THEN ValuesOf(C2) ELSE IF sh \in {5, 8} THEN {NoVal, Val("str", <<>>)} ELSE {NoVal})
+        /\ ext' \in BOOLEAN
+        /\ UNCHANGED <<sh, cv, bd, sc>>
 NoNext == FALSE /\ UNCHANGED vars
 
-Built == BuildUrl(MapOf, BindOf, 1, ValsOf, ext)
-Delivered == Deliver(MapOf, BindOf, Built.url)
-Dom == DomPart(MapOf, BindOf, Delivered.host)
-Matches == MatchM(MapOf, Dom.dom, Delivered.path)
+SeqOfSet(S) == LET RECURSIVE F(_) F(R) == IF R = {} THEN <<>> ELSE LET x == CHOOSE y \in R : TRUE IN <<x>> \o F(R \ {x}) IN F(S)
+AsVals(S) == LET q == SeqOfSet(S) IN [i \in 1..Len(q) |-> [name |-> q[i][1], ty |-> q[i][2], v |-> q[i][3], items |-> q[i][4]]]
 
+\* the URL is plain ASCII without raw space, control characters or '#'
+L0(Built) == IsAsciiSeq(Built.url) /\ \A i \in 1..Len(Built.url) : Built.url[i] > 32 /\ Built.url[i] # HASH /\ Built.url[i] # 127
 \* build -> deliver -> match is the identity on (endpoint, values); extras come back from the query
-Law1 == /\ Built.ok
+L1(m, vals, Built, Delivered, Dom, Matches) ==
+        /\ Built.ok
         /\ Delivered.under /\ Dom.ok
         /\ Cardinality(Matches) = 1
         /\ \A x \in Matches : /\ x.ep = 1
-                              /\ x.vals \in ExpectedVals(MapOf, 1, ValsOf)
-                              /\ QueryDecode(Delivered.query) \in ExpectedExtras(MapOf, 1, ValsOf, x.vals)
+                              /\ x.vals \in ExpectedVals(m, 1, vals)
+                              /\ QueryDecode(Delivered.query) \in ExpectedExtras(m, 1, vals, x.vals)
                               /\ x.rule = Built.rule
 \* building the match again gives the URL (without the query)
-SeqOfSet(S) == LET RECURSIVE F(_) F(R) == IF R = {} THEN <<>> ELSE LET x == CHOOSE y \in R : TRUE IN <<x>> \o F(R \ {x}) IN F(S)
-AsVals(S) == LET q == SeqOfSet(S) IN [i \in 1..Len(q) |-> [name |-> q[i][1], ty |-> q[i][2], v |-> q[i][3], items |-> q[i][4]]]
-Law2 == \A x \in Matches : BuildUrl(MapOf, BindOf, x.ep, AsVals(x.vals), ext).url = StripQuery(Built.url)
-\* the URL is plain ASCII without raw space, '#', and with at most the one '?' that starts the query
-Law0 == IsAsciiSeq(Built.url) /\ \A i \in 1..Len(Built.url) : Built.url[i] > 32 /\ Built.url[i] # HASH /\ Built.url[i] # 127
-
-\* converse: every canonical delivered path that is admitted matches, and build . match gives it back
-NearPaths == LET p == Delivered.path IN
+L2(m, b, Built, Matches) == \A x \in Matches : BuildUrl(m, b, x.ep, AsVals(x.vals), ext).url = StripQuery(Built.url)
+\* converse: whatever the map admits among the neighbours of a delivered path is a fixed point of
+\* match . deliver . build, and a canonical spelling is given back literally
+NearPaths(p) ==
   {p, p \o <<SLASH>>, <<SLASH>> \o p, RStripSlash(p)}
   \cup {Take(p, i) \o <<ZERO>> \o Drop(p, i) : i \in 0..Len(p)}
   \cup {Take(p, i) \o Drop(p, i + 1) : i \in 0..(Len(p) - 1)}
-Law3 == \A p \in NearPaths :
-   \A x \in MatchM(MapOf, Dom.dom, p) :
-     LET rb == BuildUrl(MapOf, BindOf, x.ep, AsVals(x.vals), ext)
-         d2 == Deliver(MapOf, BindOf, rb.url)
+L3(m, b, Delivered, Dom) == \A p \in NearPaths(Delivered.path) :
+   \A x \in MatchM(m, Dom.dom, p) :
+     LET rb == BuildUrl(m, b, x.ep, AsVals(x.vals), ext)
+         d2 == Deliver(m, b, rb.url)
      IN (\A tv \in x.vals : tv[2] # "float?") =>
         /\ rb.ok /\ d2.under
-        /\ \E y \in MatchM(MapOf, Dom.dom, d2.path) : y.ep = x.ep /\ y.vals = x.vals
-        /\ CanonPath(MapOf, Dom.dom, p) => d2.path = p
+        /\ \E y \in MatchM(m, Dom.dom, d2.path) : y.ep = x.ep /\ y.vals = x.vals
+        /\ CanonPath(m, Dom.dom, p) => d2.path = p
 
-ExportCase == PrintT(ToJson([map |-> MapOf, bind |-> BindOf, ep |-> 1, vals |-> ValsOf, ext |-> ext, url |-> Built.url]))
+Laws ==
+  LET m == MapOf
+      b == BindOf
+      vals == ValsOf
+      Built == BuildUrl(m, b, 1, vals, ext)
+      Delivered == Deliver(m, b, Built.url)
+      Dom == DomPart(m, b, Delivered.host)
+      Matches == MatchM(m, Dom.dom, Delivered.path)
+      bad == IF ~L0(Built) THEN "Law0" ELSE IF ~L1(m, vals, Built, Delivered, Dom, Matches) THEN "Law1"
+             ELSE IF ~L2(m, b, Built, Matches) THEN "Law2" ELSE IF ~L3(m, b, Delivered, Dom) THEN "Law3" ELSE "ok"
+  IN IF ph = 0 \/ bad = "ok" \/ Candidates(m.rules, 1, vals) = {} THEN TRUE ELSE PrintT(<<bad, Built.url, Delivered, Matches>>) /\ FALSE
+
+ExportCase == LET m == MapOf b == BindOf IN
+  ph = 0 \/ Candidates(m.rules, 1, ValsOf) = {} \/ PrintT(ToJson([map |-> m, bind |-> b, ep |-> 1, vals |-> ValsOf, ext |-> ext, url |-> BuildUrl(m, b, 1, ValsOf, ext).url]))
 =============================================================================
